@@ -87,6 +87,11 @@ def structural(rng, viol, evals):
         got = run_once(nested, seed)
         if got != [i for i in range(k) if alw[i]]:
             bad('Compose:skipped', case, got, [i for i in range(k) if alw[i]])
+        # the recording subclass is a Compose as well: its own p decides, a skipped one applies the always-apply leaves only
+        case = {'op': 'ReplayCompose(p=0)', 'ps': ps2, 'always': alw, 'seed': seed}
+        got = run_once(A.ReplayCompose(leaves(ps2, alw), p=0.0), seed)
+        if got != [i for i in range(k) if alw[i]]:
+            bad('ReplayCompose:skipped', case, got, [i for i in range(k) if alw[i]])
         # ... at every nesting depth: the leaves wrapped in 1..4 operators of random kinds
         depth = rng.randint(1, 4)
         kinds = [rng.choice(['Sequential', 'OneOf', 'SomeOf', 'OneOrOther', 'Compose']) for _ in range(depth)]
